@@ -165,6 +165,24 @@ int main(void)
           check_nested("nest", "in_s16", f, ns(Outer_in_s16(o)), 1, 51, 52, ns(Outer_name(o)), "name string");
           flatcc_builder_aligned_free((void *)f.buf);
       }
+      /* E2: the same with align 0 = "what the nested type needs": 8 for a table root, the struct's own alignment for a struct root */
+      flatcc_builder_reset(B);
+      ns(Outer_start_as_root(B));
+      ns(Outer_name_create_str(B, "x"));
+      ns(Outer_in_t_nest(B, ib, isz, 0));
+      { struct { uint32_t off; uint32_t pad[3]; int64_t a, b; } sb = { 16, {0, 0, 0}, 51, 52 };
+        ns(Outer_in_s16_nest(B, &sb, sizeof sb, 0)); }
+      { struct { uint32_t off; uint32_t pad; int64_t a; } s8 = { 8, 0, 53 };
+        ns(Outer_in_s8_nest(B, &s8, sizeof s8, 1)); }
+      ns(Outer_end_as_root(B));
+      f = finish("nest0", 16);
+      if (f.size) {
+          o = ns(Outer_as_root(f.buf));
+          check_nested("nest0", "in_t", f, ns(Outer_in_t(o)), 0, 41, 0, ns(Outer_name(o)), "name string");
+          check_nested("nest0", "in_s16", f, ns(Outer_in_s16(o)), 1, 51, 52, ns(Outer_name(o)), "name string");
+          check_nested("nest0", "in_s8", f, ns(Outer_in_s8(o)), 2, 53, 0, ns(Outer_name(o)), "name string");
+          flatcc_builder_aligned_free((void *)f.buf);
+      }
       flatcc_builder_aligned_free(ib);
     }
 
@@ -188,6 +206,11 @@ int main(void)
             if (!chk[k].v || id != chk[k].h) printf("FAIL typed-%s-identifier typed nested root %s has identifier %08x, type hash is %08x\n", chk[k].name, chk[k].name, (unsigned)id, (unsigned)chk[k].h);
             else printf("ok typed %s identifier\n", chk[k].name);
         }
+        /* ... and the generated typed accessors of the parent read what the typed builder calls wrote */
+        { ns(Inner_table_t) it = ns(Outer_in_t_as_typed_root(o)); ns(S16_struct_t) s16 = ns(Outer_in_s16_as_typed_root(o)); ns(S8_struct_t) s8 = ns(Outer_in_s8_as_typed_root(o));
+          if (!it || ns(Inner_x(it)) != 64) printf("FAIL typed-in_t-accessor Outer_in_t_as_typed_root does not return the nested table built with in_t_start_as_typed_root\n"); else printf("ok typed in_t accessor\n");
+          if (!s16 || ns(S16_a(s16)) != 61) printf("FAIL typed-in_s16-accessor Outer_in_s16_as_typed_root does not return the nested struct built with in_s16_start_as_typed_root\n"); else printf("ok typed in_s16 accessor\n");
+          if (!s8 || ns(S8_a(s8)) != 63) printf("FAIL typed-in_s8-accessor Outer_in_s8_as_typed_root does not return the nested struct built with in_s8_create_as_typed_root\n"); else printf("ok typed in_s8 accessor\n"); }
         check_nested("typed", "in_s16", f, ns(Outer_in_s16(o)), 1, 61, 62, 0, 0);
         check_nested("typed", "in_s8", f, ns(Outer_in_s8(o)), 2, 63, 0, 0, 0);
         check_nested("typed", "in_t", f, ns(Outer_in_t(o)), 0, 64, 0, 0, 0);
